@@ -355,16 +355,22 @@ func genSpec(rng *rand.Rand) codecSpec {
 		fl := []int{1, 2, 4, 8}[rng.Intn(4)]
 		s := codecSpec{kind: "lf", big: rng.Intn(2) == 0, fieldLen: fl}
 		s.max = []int{16, 64, 255, 256, 300, 1024, 65535, 65536, 70000, 1 << 20}[rng.Intn(10)]
-		if rng.Intn(3) == 0 {
+		if rng.Intn(2) == 0 {
 			s.offset = rng.Intn(4)
 		}
 		if rng.Intn(3) == 0 {
 			s.adj = rng.Intn(9) - 4
 		}
 		if rng.Intn(2) == 0 {
-			s.strip = rng.Intn(fl + s.offset + 3)
-			if rng.Intn(3) == 0 { // reaching well into the body (a sub-header that is stripped with the length field)
+			switch rng.Intn(4) {
+			case 0:
+				s.strip = rng.Intn(fl + s.offset + 3)
+			case 1: // the natural choices: the bytes in front of the field, the field, both
+				s.strip = []int{s.offset, fl, s.offset + fl, 1}[rng.Intn(4)]
+			case 2: // reaching well into the body (a sub-header that is stripped with the length field)
 				s.strip = fl + s.offset + 1 + rng.Intn(8)
+			default:
+				s.strip = fl
 			}
 		}
 		if rng.Intn(20) == 0 { // invalid configurations
